@@ -52,6 +52,73 @@ type vpsampRow struct {
 	Whale float64  `json:"whale"`
 	Tags  [3]int32 `json:"tags"`          // Key.Tags[1..3]
 	Pct   bool     `json:"pct,omitempty"` // row carries a percentile digest (not a "single value counter")
+	// contents of the row's tail (small integers, so that true count/sum/sumsquare are exact)
+	Shape int        `json:"shape,omitempty"` // vpsampShape*
+	Ev    [4]float64 `json:"ev,omitempty"`    // shape parameters: v1, c1, v2 or extra count, c2
+}
+
+const (
+	vpsampShapeCounter   = 0 // counter-only events: count max(1, Ev[1])
+	vpsampShapeSingle    = 1 // value Ev[0] x Ev[1]: sum is min*count
+	vpsampShapeIdentical = 2 // value Ev[0] x Ev[1] plus counter-only weight Ev[2]: min == max but sum != min*count
+	vpsampShapeTwo       = 3 // values Ev[0] x Ev[1] and Ev[2] x Ev[3]
+)
+
+type vpsampTruth struct {
+	Count, Sum, SumSq float64
+	ValueSet          bool
+}
+
+func (r *vpsampRow) truth() vpsampTruth {
+	c1 := math.Max(1, r.Ev[1])
+	switch r.Shape {
+	case vpsampShapeSingle:
+		return vpsampTruth{c1, r.Ev[0] * c1, r.Ev[0] * r.Ev[0] * c1, true}
+	case vpsampShapeIdentical:
+		return vpsampTruth{c1 + math.Max(1, r.Ev[2]), r.Ev[0] * c1, r.Ev[0] * r.Ev[0] * c1, true}
+	case vpsampShapeTwo:
+		c2 := math.Max(1, r.Ev[3])
+		return vpsampTruth{c1 + c2, r.Ev[0]*c1 + r.Ev[2]*c2, r.Ev[0]*r.Ev[0]*c1 + r.Ev[2]*r.Ev[2]*c2, true}
+	}
+	return vpsampTruth{Count: c1}
+}
+
+func (r *vpsampRow) fill(v *ItemValue) {
+	c1 := math.Max(1, r.Ev[1])
+	switch r.Shape {
+	case vpsampShapeSingle:
+		v.AddValueCounter(r.Ev[0], c1)
+	case vpsampShapeIdentical:
+		v.AddValueCounter(r.Ev[0], c1)
+		v.AddCounter(math.Max(1, r.Ev[2]))
+	case vpsampShapeTwo:
+		v.AddValueCounter(r.Ev[0], c1)
+		v.AddValueCounter(r.Ev[2], math.Max(1, r.Ev[3]))
+	default:
+		v.AddCounter(c1)
+	}
+}
+
+// received: what the aggregator accumulates for a kept row: the agent's keepF conversion
+// (TLMultiItemFromKey, MultiValueToTL with the row's sample factor, WriteTL1), the wire, ReadTL1 and
+// MergeWithTL2 into an empty row.
+func (h *vpsampHarness) received(t vpT, i int, sf float64) vpsampTruth {
+	it := h.items[i]
+	was := it.SF
+	it.SF = sf
+	tl := it.Key.TLMultiItemFromKey(1)
+	_ = it.Tail.MultiValueToTL(h.metas[h.c.Rows[i].M], &tl.Tail, it.SF, &tl.FieldsMask, nil)
+	it.SF = was
+	wire := tl.WriteTL1(nil)
+	var mib tlstatshouse.MultiItemBytes
+	if rest, err := mib.ReadTL1(wire); err != nil || len(rest) != 0 {
+		t.Fatalf("row %d: aggregator cannot read the row sent with factor %v: err=%v rest=%d", i, sf, err, len(rest))
+	}
+	var recv MultiValue
+	if e := recv.MergeWithTL2(rand.New(1), &mib.Tail, mib.FieldsMask, TagUnion{I: 7}, AggregatorPercentileCompression); e != 0 {
+		t.Fatalf("row %d: ingestion error %d for the row sent with factor %v", i, e, sf)
+	}
+	return vpsampTruth{recv.Value.Count(), recv.Value.ValueSum, recv.Value.ValueSumSquare, recv.Value.ValueSet}
 }
 
 type vpsampOpt struct {
@@ -382,6 +449,7 @@ type vpsampHarness struct {
 	c      *vpsampCase
 	meta   *vpsampMeta
 	items  []*MultiItem
+	metas  []*format.MetricMetaValue
 	index  map[*MultiItem]int
 	Obs    []vpsampObs
 	SFs    []tlstatshouse.SampleFactor // reported through SampleFactorF (metric, average factor)
@@ -396,6 +464,7 @@ func vpsampNewHarness(c *vpsampCase) *vpsampHarness {
 		mv := &format.MetricMetaValue{MetricID: m.ID, NamespaceID: m.NS, GroupID: m.Group, EffectiveWeight: m.Weight, NoSampleAgent: m.NoSample,
 			FairKeyIndex: append([]int(nil), m.FairKey...)}
 		metas[i] = mv
+		h.metas = append(h.metas, mv)
 		if m.Meta == vpsampMetaStorage {
 			h.meta.metrics[m.ID] = mv
 		}
@@ -412,7 +481,7 @@ func vpsampNewHarness(c *vpsampCase) *vpsampHarness {
 		it := &MultiItem{}
 		it.Key.Metric = m.ID
 		it.Key.Tags[1], it.Key.Tags[2], it.Key.Tags[3] = r.Tags[0], r.Tags[1], r.Tags[2]
-		it.Tail.Value.AddValueCounter(1, r.Whale+1)
+		r.fill(&it.Tail.Value)
 		if r.Pct {
 			it.Tail.ValueTDigest = tdigest.New()
 		}
@@ -517,6 +586,15 @@ func vpsampIDs(t *rapid.T, label string, wide bool, small []int32, n int) []int3
 	return rapid.SliceOfNDistinct(rapid.SampledFrom(pool), n, n, func(v int32) int32 { return v }).Draw(t, label)
 }
 
+func vpsampDrawShape(t *rapid.T, r *vpsampRow) {
+	r.Shape = rapid.IntRange(0, 3).Draw(t, "shape")
+	r.Ev = [4]float64{float64(rapid.IntRange(-3, 9).Draw(t, "v1")), float64(rapid.IntRange(1, 5).Draw(t, "c1")),
+		float64(rapid.IntRange(1, 5).Draw(t, "v2")), float64(rapid.IntRange(1, 5).Draw(t, "c2"))}
+	if r.Shape == vpsampShapeTwo && r.Ev[2] == r.Ev[0] {
+		r.Ev[2] = r.Ev[0] + 1
+	}
+}
+
 // vpsampGenZero: the budget that reaches the sampled level is zero. Run(0) happens on the agent when
 // the per-metric budgets handed out by the aggregator use up the shard budget and MinSampleBudget is
 // 0; with a budget of 1..4 bytes a nested share below one byte is rounded down to 0 in some of the
@@ -560,6 +638,7 @@ func vpsampGenZero(t *rapid.T) vpsampCase {
 	for i := 0; i < n; i++ {
 		r := vpsampRow{M: rapid.IntRange(0, nMetrics-1).Draw(t, "row_metric"), Size: rapid.IntRange(28, 32).Draw(t, "row_size"),
 			Whale: rapid.SampledFrom(vpsampWhales).Draw(t, "whale"), Pct: b("pct", 20)}
+		vpsampDrawShape(t, &r)
 		r.Tags[0] = tagVals[0][rapid.IntRange(0, 3).Draw(t, "tag")]
 		r.Tags[1] = tagVals[1][rapid.IntRange(0, 1).Draw(t, "tag")]
 		c.Rows = append(c.Rows, r)
@@ -707,6 +786,7 @@ func vpsampGen(gc vpsampGenCfg) *rapid.Generator[vpsampCase] {
 				r.Tags[j] = tagVals[j][rapid.IntRange(0, 2).Draw(t, "tag")]
 			}
 			r.Pct = b("pct", 20)
+			vpsampDrawShape(t, &r)
 			if r.Size >= 1 {
 				metricSize[r.M] += int64(r.Size)
 				total += int64(r.Size)
